@@ -10,7 +10,7 @@ SPEC = {'level': 'exploration',
                  'records are undamaged (clean/truncated/trailing-bytes files); otherwise entries may only leave if normal submission of the same records removes them too',
                  'deltas of saved transactions that were not restored (expired/rejected) are not judged (the statement is silent)',
                  'default 300 MB pool: nothing leaves for size reasons'],
- 'stages': [gen('vh_c55', 'c55_persist', 288, 4800, min_cases_quick=120,
+ 'stages': [gen('vh_c55', 'c55_persist', 320, 5600, min_cases_quick=120,
                 floors={'fault:clean': 0.25, 'clean-full-restore': 0.05, 'restored-partially': 0.08, 'saved:prioritised-entry': 0.4, 'saved:unbroadcast-entry': 0.4,
                         'saved:absent-delta': 0.3, 'absent-deltas-checked': 0.25, 'load-time:entry-just-expired': 0.06, 'load-time:entry-just-unexpired': 0.06,
                         'non-empty-pool-before-load': 0.2, 'load-reported-failure': 0.12, 'format:v1': 0.15, 'format:v2': 0.4, 'block-after-dump': 0.05},
